@@ -456,6 +456,23 @@ def run_service_case(backend, case):
   via_client = [t.id for t in st.optimal_trials().get()]
   via_client2 = [t.id for t in st.optimal_trials()]
   run_service_case.declared_infeasible = [i for i in declared_infeasible]
+  # the in-memory query over the trials AS A CLIENT DOWNLOADS THEM (the Python trial objects the converters build):
+  # what an offline analysis, or a copy of the study, is computed from
+  run_service_case.downloaded = None
+  try:
+    import copy as _copy
+    from vizier._src.pythia import local_policy_supporters as lps
+    down = list(st.trials().get())
+    lost = sorted(t.id for t in down if t.id in declared_infeasible and not t.infeasible)
+    sup = lps.InRamPolicySupporter(st.materialize_problem_statement())
+    copies = [_copy.deepcopy(t) for t in down]
+    orig_ids = [t.id for t in copies]
+    sup.AddTrials(copies)
+    new_to_orig = {t.id: o for t, o in zip(copies, orig_ids)}
+    best = sorted(new_to_orig[t.id] for t in sup.GetBestTrials())
+    run_service_case.downloaded = {'infeasible_flag_lost': lost, 'inram_best': best}
+  except Exception as e:  # pylint: disable=broad-except
+    run_service_case.downloaded = {'error': '%s: %s' % (type(e).__name__, str(e)[:200])}
   return stored, got, via_client, via_client2
 
 
@@ -497,6 +514,16 @@ def service_stage(c, V, n, backends):
         c.prop_fail('infeasible-trial-reported-optimal',
                     'trial(s) %s were completed as INFEASIBLE by their worker (through the service or through the client library, with an empty or non-empty reason) and are reported by ListOptimalTrials (%s): %s' % (bad, be, got),
                     {'backend': be, 'history': canon_case(case), 'declared_infeasible': run_service_case.declared_infeasible, 'stored': canon_case(stored), 'real': got})
+      dl = run_service_case.downloaded or {}
+      if dl.get('infeasible_flag_lost'):
+        c.prop_fail('infeasible-trial-downloaded-as-feasible',
+                    'trial(s) %s were completed as INFEASIBLE by their worker but read back through the client as feasible trials (%s)' % (dl['infeasible_flag_lost'], be),
+                    {'backend': be, 'history': canon_case(case), 'declared_infeasible': run_service_case.declared_infeasible, 'stored': canon_case(stored)})
+      elif ('inram_best' in dl and not any(sf for _, _, sf in case['spec'])      # (safety metrics: the two queries treat them differently by design)
+            and sorted(dl['inram_best']) != sorted(got) and not any(isinstance(v, float) and v != v for t in stored for _, v in t['final'])):
+        c.prop_fail('downloaded-trials-best-differs-from-service',
+                    'GetBestTrials over the trials a client downloads gives %s, ListOptimalTrials of the service gives %s (%s)' % (dl['inram_best'], sorted(got), be),
+                    {'backend': be, 'history': canon_case(case), 'stored': canon_case(stored), 'inram_best': dl['inram_best'], 'service': sorted(got)})
       runs.append((case, be, stored, got, cl1, cl2))
       reqs.append(service_request(case, stored, V.svc_skip_nan))
   models = c.lean('C11', reqs)
